@@ -14,6 +14,7 @@ fn dispatch(case: &Value) -> Value {
         "gate_sched" => gates::run_gate_sched(case),
         "opseq" => opseq::run_opseq(case),
         "pauli" => pauli::run_pauli(case),
+        "pauli_exp" => pauli::run_pauli_exp(case),
         "sched" => sched(case),
         other => json!({"r": "harness_error", "e": format!("unknown op {}", other)}),
     }
